@@ -68,6 +68,7 @@ static J verdict_to_json (const Verdict &v)
 	j ["findings"] = fl ;
 	j ["hash"] = (long long) (v.hash >> 1) ;
 	j ["nontrivial"] = v.nontrivial ;
+	if (getenv ("VERIF_DEBUG_PARTS")) { J a = J::arr () ; for (auto x : v.parts) a.push ((long long) (x >> 1)) ; j ["parts"] = a ; }
 	return j ;
 }
 
@@ -105,7 +106,7 @@ static ForkOut fork_check (const Profile &prof, const J &plan, int warm = 0, uin
 		if (efd >= 0) { dup2 (efd, 2) ; close (efd) ; }
 		install_watchdog (60) ;
 		g_os = new SimOS ;
-		for (int k = 0 ; k < warm ; k++) { J p = prof.gen (warm_seed, 1000000 + k) ; prof.check (p) ; }
+		for (int k = 0 ; k < warm ; k++) { J p = prof.gen (warm_seed, 777000 + k) ; prof.check (p) ; }
 		Verdict v = prof.check (plan) ;
 		J j = verdict_to_json (v) ;
 		std::string soft = read_file (errp), ty ;
@@ -511,7 +512,16 @@ static int cmd_one (const Args &a)
 	J plan ;
 	if (a.kv.count ("plan")) { if (!J::load (a.get ("plan"), plan)) return 2 ; if (plan.has ("plan")) { J inner = plan.at ("plan") ; plan = inner ; } }
 	else { g_os = new SimOS ; plan = prof->gen ((uint64_t) a.geti ("seed", 1), (uint64_t) a.geti ("idx", 0)) ; }
-	J rep = run_plan_report (*prof, plan) ;
+	J rep ;
+	if (a.kv.count ("pre"))
+	{	// run the given plan indices first, in this process, then the target (debugging history dependence)
+		g_os = new SimOS ;
+		std::string l = a.get ("pre") ; size_t p0 = 0 ;
+		while (p0 < l.size ()) { size_t e = l.find (',', p0) ; if (e == std::string::npos) e = l.size () ; uint64_t i = strtoull (l.substr (p0, e - p0).c_str (), nullptr, 10) ; J pp = prof->gen ((uint64_t) a.geti ("seed", 1), i) ; prof->check (pp) ; p0 = e + 1 ; }
+		Verdict v = prof->check (plan) ; rep = verdict_to_json (v) ;
+	}
+	else if (a.kv.count ("warm")) { ForkOut fo = fork_check (*prof, plan, (int) a.geti ("warm", 50), (uint64_t) a.geti ("seed", 1) ^ 0x5555) ; rep = fo.verdict ; }
+	else rep = run_plan_report (*prof, plan) ;
 	if (a.kv.count ("show-plan")) printf ("%s\n", plan.dump ().c_str ()) ;
 	printf ("%s\n", rep.dump ().c_str ()) ;
 	return rep.at ("findings").size () ? 1 : 0 ;
@@ -637,6 +647,7 @@ static int cmd_gate (const Args &a)
 			Verdict v = prof->check (p) ;
 			uint64_t h = v.hash >> 1 ;
 			for (auto &f : v.findings) h = fnv1a (f.sig.data (), f.sig.size (), h) >> 1 ;
+			if (getenv ("VERIF_DEBUG_PARTS")) { fprintf (stderr, "A idx %llu:", (unsigned long long) (start + k * stride)) ; for (auto x : v.parts) fprintf (stderr, " %llx", (unsigned long long) x) ; for (auto &f : v.findings) fprintf (stderr, " %s", f.sig.c_str ()) ; fprintf (stderr, "\n") ; }
 			if (write (pfd [1], &h, 8) != 8) _exit (3) ;
 		}
 		_exit (0) ;
@@ -658,6 +669,7 @@ static int cmd_gate (const Args &a)
 			Verdict v = prof->check (p) ;
 			uint64_t hh = v.hash >> 1 ;
 			for (auto &f : v.findings) hh = fnv1a (f.sig.data (), f.sig.size (), hh) >> 1 ;
+			if (getenv ("VERIF_DEBUG_PARTS")) { fprintf (stderr, "B idx %llu:", (unsigned long long) (start + k * stride)) ; for (auto x : v.parts) fprintf (stderr, " %llx", (unsigned long long) x) ; for (auto &f : v.findings) fprintf (stderr, " %s", f.sig.c_str ()) ; fprintf (stderr, "\n") ; }
 			if (write (q [1], &hh, 8) != 8) _exit (3) ;
 			_exit (0) ;
 		}
